@@ -1,7 +1,9 @@
 # -*- coding: utf-8 -*-
 """C08 -- results do not depend on runtime, executor variant or completion order."""
 import json
+import os
 import random
+import sys
 
 from .. import gen_sched, sched, sched_comb, sched_prog as sp
 
@@ -16,6 +18,10 @@ RUN_MODULE = "Exec.RuntimeMachine Exec.RuntimeFutures Run.C08run"
 AGREE = "agree_C08"
 CASE_TYPE = "case_C08"
 SHARD = 40
+# corpus() is not told the tier: the quick tier replays every corpus witness under at most 120 completion
+# orders (exhaustive up to 5 deferred calls) + samples, the thorough tier under 720 + samples
+QUICK = "thorough" not in sys.argv and os.environ.get("VERIF_TIER") != "thorough"
+CORPUS_ORDERS = (120, 12) if QUICK else (720, 20)
 LEVEL_NOTE = ("Theorems are about two Gallina models: Exec/RuntimeFutures.v (callback-level heap machine for "
               "runtime/threadpool.py chain / gather_futures / unwrap_future) and Exec/RuntimeMachine.v "
               "(small-step machine for the generic Executor over deferred values; programs are behaviour trees, "
@@ -175,7 +181,7 @@ def _cases_for(prog, limit, samples, seed, configs=("bexec", "brt", "aio", "aiot
 def corpus():
     out = []
     for i, p in enumerate(_corpus_programs()):
-        out.extend(_cases_for(p, 720, 20, i))
+        out.extend(_cases_for(p, CORPUS_ORDERS[0], CORPUS_ORDERS[1], i))
     # witness of the open finding nested-list-row-failure-start-depends-on-runtime
     out.append({"nested": {"op": "query", "fields": [F(0, "C", ["list2", "llr", [
         ["row", [["obj", [F(1, "C", ["int", 1])]], ["bad"]]], ["row", [["obj", [F(1, "C", ["err", 0], sh="i")]]]]]])]},
@@ -382,8 +388,8 @@ def _comb_cases(rng, quick):
 def generate(rng, tier):
     global SHARD
     quick = tier == "quick"
-    SHARD = 40 if quick else 10
-    limit, samples = (720, 30) if quick else (5040, 200)
+    SHARD = 10
+    limit, samples = (120, 12) if quick else (5040, 200)
     cases = _comb_cases(rng, quick) + nested_cases(rng, quick) + fan_cases(rng, quick)
     plan = []
     if quick:
